@@ -150,6 +150,7 @@ func init() {
 				Singles:     true,
 				PairsSample: scale(tier, 60, 4000),
 				Random:      scale(tier, 100, 12000),
+				Repeat:      scale(tier, 400, 6000),
 			}, tier)
 		},
 		Run: runRetryCase("C17", func(a *scen.Analysis) ([]scen.Finding, bool, map[string]int) {
